@@ -445,6 +445,14 @@ func (x *Engine) writeSet(fr *Frame, li *loopInfo) (map[string]bool, map[string]
 	arb := map[string]bool{}
 	freshOnly := map[string]bool{}
 	all := false
+	var ins ssa.Instruction
+	setAll := func(i ssa.Instruction, n int) {
+		all = true
+		if i != nil {
+			x.notes = append(x.notes, fmt.Sprintf("loop frame unknown (#%d): %s in %s", n, i.String(), i.Parent()))
+		}
+	}
+	_ = ins
 	seen := map[*ssa.Function]bool{}
 	var scanFn func(fn *ssa.Function, depth int)
 	var scanInstr func(ins ssa.Instruction, depth int)
@@ -492,7 +500,7 @@ func (x *Engine) writeSet(fr *Frame, li *loopInfo) (map[string]bool, map[string]
 		}
 		pt, ok := addr.Type().Underlying().(*types.Pointer)
 		if !ok {
-			all = true
+			setAll(ins, 1)
 			return
 		}
 		if _, ok := structOf(pt.Elem()); ok && !isOpaqueStruct(pt.Elem()) {
@@ -501,7 +509,8 @@ func (x *Engine) writeSet(fr *Frame, li *loopInfo) (map[string]bool, map[string]
 			keys[x.memKey(pt.Elem())] = true
 		}
 	}
-	scanInstr = func(ins ssa.Instruction, depth int) {
+	scanInstr = func(ins0 ssa.Instruction, depth int) {
+		ins = ins0
 		switch i := ins.(type) {
 		case *ssa.Store:
 			storeKeys(i.Addr)
@@ -542,13 +551,21 @@ func (x *Engine) writeSet(fr *Frame, li *loopInfo) (map[string]bool, map[string]
 			d, v := x.mapKeys(i.Map.Type().Underlying().(*types.Map))
 			keys[d], keys[v], keys["MapLen"] = true, true, true
 		case *ssa.Defer:
-			all = true
+			if i.Parent() == fr.fn {
+				setAll(ins, 2)
+				return
+			}
+			scanInstr(deferAsCall{i}, depth)
+			return
 		case *ssa.Go, *ssa.Send, *ssa.Select:
-			all = true
+			setAll(ins, 3)
 		case ssa.CallInstruction:
 			cc := i.Common()
 			if cc.IsInvoke() {
 				key := x.ifaceKey(cc.Value.Type(), cc.Method)
+				if strings.HasPrefix(key, repoPfx+"exporter/metric.") {
+					return
+				}
 				if fs := x.db.Funcs[key]; fs != nil {
 					if fs.Pure || (fs.HasMod && len(fs.Modifies) == 0) {
 						return
@@ -557,7 +574,7 @@ func (x *Engine) writeSet(fr *Frame, li *loopInfo) (map[string]bool, map[string]
 						return
 					}
 				}
-				all = true
+				setAll(ins, 4)
 				return
 			}
 			if b, ok := cc.Value.(*ssa.Builtin); ok {
@@ -582,10 +599,25 @@ func (x *Engine) writeSet(fr *Frame, li *loopInfo) (map[string]bool, map[string]
 				}
 			}
 			if callee == nil {
-				all = true
+				if n, ok := cc.Value.Type().(*types.Named); ok && n.Obj().Pkg() != nil {
+					if fs := x.db.Funcs[n.Obj().Pkg().Path()+"."+n.Obj().Name()+".call"]; fs != nil && x.specModKeys(fs, keys) {
+						return
+					}
+				}
+				setAll(ins, 5)
 				return
 			}
 			name := callee.String()
+			if name == "(*sync.Once).Do" {
+				x.regComp("Once:done", "(Array Int Bool)")
+				arb["Once:done"] = true
+				if mc, ok := cc.Args[1].(*ssa.MakeClosure); ok {
+					scanFn(mc.Fn.(*ssa.Function), depth+1)
+				} else {
+					setAll(ins, 6)
+				}
+				return
+			}
 			if eff, ok := intrinsicEffect(name); ok {
 				switch eff {
 				case "none":
@@ -598,7 +630,7 @@ func (x *Engine) writeSet(fr *Frame, li *loopInfo) (map[string]bool, map[string]
 					x.regComp("ghost:clock_ms", "Int")
 					x.regComp("ghost:clock_ns", "Int")
 				default:
-					all = true
+					setAll(ins, 7)
 				}
 				return
 			}
@@ -612,12 +644,12 @@ func (x *Engine) writeSet(fr *Frame, li *loopInfo) (map[string]bool, map[string]
 					return
 				}
 				if fs.HasMod {
-					all = true
+					setAll(ins, 8)
 					return
 				}
 			}
 			if callee.Blocks == nil || depth > x.maxDepth {
-				all = true
+				setAll(ins, 9)
 				return
 			}
 			scanFn(callee, depth+1)
@@ -702,3 +734,72 @@ func specKeyOf(fn *ssa.Function) string {
 	}
 	return fn.String()
 }
+
+// runUnrolled executes paths one by one (no merging, loops unrolled): used for small callees whose loops run over
+// slices with statically known contents (functional options).
+func (x *Engine) runUnrolled(fr *Frame, b, pred *ssa.BasicBlock, st *State, budget *int) {
+	*budget--
+	if *budget < 0 {
+		x.degrade("unrolling budget exhausted in " + fr.fn.String())
+		return
+	}
+	if pred != nil {
+		idx := -1
+		for i, p := range b.Preds {
+			if p == pred {
+				idx = i
+			}
+		}
+		var phis []*ssa.Phi
+		var vs []Val
+		for _, ins := range b.Instrs {
+			phi, ok := ins.(*ssa.Phi)
+			if !ok {
+				break
+			}
+			phis = append(phis, phi)
+			v := x.val(fr, phi.Edges[idx])
+			v.Typ = phi.Type()
+			vs = append(vs, v)
+		}
+		for i, phi := range phis {
+			fr.vals[phi] = vs[i]
+		}
+	}
+	for _, ins := range b.Instrs {
+		switch i := ins.(type) {
+		case *ssa.Phi:
+			continue
+		case *ssa.Jump:
+			x.runUnrolled(fr, b.Succs[0], b, st, budget)
+			return
+		case *ssa.If:
+			c := x.val(fr, i.Cond)
+			switch c.T {
+			case "true":
+				x.runUnrolled(fr, b.Succs[0], b, st, budget)
+			case "false":
+				x.runUnrolled(fr, b.Succs[1], b, st, budget)
+			default:
+				save := make(map[ssa.Value]Val, len(fr.vals))
+				for k, v := range fr.vals {
+					save[k] = v
+				}
+				st2 := st.clone()
+				st.live = x.name("live", "Bool", andTerms(st.live, c.T))
+				x.runUnrolled(fr, b.Succs[0], b, st, budget)
+				fr.vals = save
+				st2.live = x.name("live", "Bool", andTerms(st2.live, notTerm(c.T)))
+				x.runUnrolled(fr, b.Succs[1], b, st2, budget)
+			}
+			return
+		default:
+			if x.step(fr, st, ins, nil) {
+				return
+			}
+		}
+	}
+}
+
+// deferAsCall lets the write-set analysis treat a deferred call in a callee like an ordinary call.
+type deferAsCall struct{ *ssa.Defer }
